@@ -108,7 +108,8 @@ def code_data_from_json(value: object) -> CodeData:
             tuple(instruction_from_json(i) for i in block) for block in value["blocks"]
         )
     if "type" in value:
-        tp = value["type"]
+        # copy so we don't modify the nested dict of the input
+        tp = copy(value["type"])
         if "args" in tp:
             tp["args"] = Args(**lists_values_to_tuples(tp["args"]))
         value["type"] = Function(**tp)
